@@ -138,7 +138,10 @@ def explore(repo, contract, case, max_paths=400):
             outcome = ('havoc', str(e))
         for k in range(n0, len(I.dec)):
             stack.append(I.dec[:k] + [False])
-        runs.append(PathRun(list(I.dec), I, outcome, H, ctx))
+        pr = PathRun(list(I.dec), I, outcome, H, ctx)
+        pr.state = sym.save_state()
+        I.extra_axioms = list(sym.EXTRA)
+        runs.append(pr)
         if len(runs) > max_paths:
             raise CheckerError(f'path explosion in {contract.qualname} case {case}')
     return runs
@@ -156,6 +159,8 @@ def obligations_for(repo, contract, case):
     info = dict(paths=len(runs), havocs=[], dropped=set(), outcomes=[])
     for pid, run in enumerate(runs):
         I = run.interp
+        sym.restore_state(run.state)
+        I.extra_axioms = sym.EXTRA
         info['havocs'].extend((ln, why) for (ln, why) in I.havocs)
         info['dropped'] |= I.dropped
         info['outcomes'].append(run.outcome[0] + (':' + run.outcome[1] if run.outcome[0] != 'return' else ''))
